@@ -37,7 +37,7 @@ CONFIGS = [
     # one small scale: patch pairs are linked only thanks to the radius of the widest catalog
     dict(binning="B2r", scales="ang1", unit="deg", rweight=None, res=None),
 ]
-FACTORS = (1e-3, 0.5, 2.0, 1e3)
+FACTORS = (1e-3, 0.5, 2.0, 1e3, 1e-12)
 
 
 def cases(tier, seed):
@@ -62,7 +62,7 @@ def cases(tier, seed):
             if list(perm) != sorted(perm):
                 out.append(dict(base, T="centres", perm=list(perm)))
         for cat, f in itertools.product(("R", "U", "RR", "UR"), FACTORS):
-            if tier == "quick" and f in (0.5, 2.0) and cat in ("RR", "UR"):
+            if tier == "quick" and f in (0.5, 2.0, 1e-12) and cat in ("RR", "UR"):
                 continue
             out.append(dict(base, T="weights", cat=cat, factor=f))
         if tier != "quick" or (npatch == 2 and za == 0):
